@@ -1,7 +1,7 @@
 (** C07 correspondence entries. *)
 From Coq Require Import String.
 From BV Require Import Base.Prelude Base.Codec Arith.Wrap64 Arith.Ast Arith.Lit Arith.PegPrec Arith.Parse
-  Arith.Eval gen.C07ArithTable.
+  Arith.Eval Arith.TokProofs gen.C07ArithTable.
 
 (** [c07_parse]: args = [input]; result = [show_ast] or a failure marker *)
 Definition entry_c07_parse (a : list str) : list str :=
@@ -59,5 +59,32 @@ Definition entry_c07_eval (a : list str) : list str :=
       | RPanic => [lit "panic"]
       end
     end
+  | _ => [lit "?args"]
+  end.
+
+(** [c07_roundtrip]: args = [input]; the input is parsed (character level), the tree is rendered
+    from bash's table with minimal parentheses and one blank between tokens ([render_at],
+    [show_toks]: the spec side of the round-trip theorem) and parsed again (character level).
+    result = ok :: (1 if the same tree comes back) :: the rendering *)
+Fixpoint wfb (e : aexpr) : bool :=
+  let none (i : option aexpr) := match i with None => true | Some _ => false end in
+  match e with
+  | ELit z => (0 <=? z) && (z <? M63)
+  | ERef _ i => none i
+  | EUn _ a => wfb a
+  | EBin _ a b => wfb a && wfb b
+  | ECond c t f => wfb c && wfb t && wfb f
+  | EAssign _ i a => none i && wfb a
+  | EIncr _ _ i => none i
+  | EBinAssign o _ i a => none i && has_assign o && wfb a
+  end.
+
+Definition entry_c07_roundtrip (a : list str) : list str :=
+  match a with
+  | [s] => match arith_parse s with
+           | Some e => if wfb e then [lit "ok"; enc_bool (roundtrip_check e); show_toks (render_at 0 e)]
+                       else [lit "skip"]
+           | None => [lit "err"]
+           end
   | _ => [lit "?args"]
   end.
